@@ -1,7 +1,7 @@
 """Core machinery shared by all property pipelines: building the harness, running TLC,
 extracting emitted cases, replaying them against the real crate, trace validation, failure
 attribution, known findings, evidence."""
-import fcntl, json, os, re, signal, subprocess, sys, time, hashlib, random
+import fcntl, json, os, re, signal, subprocess, sys, tempfile, time, hashlib, random
 
 VERIF = os.path.dirname(os.path.dirname(os.path.abspath(__file__)))
 SPEC = os.path.join(VERIF, "spec")
@@ -190,6 +190,9 @@ def run_tlc(workdir, name, module, cfg, workers=1, simulate=None, seed=None, tim
 # --------------------------------------------------------------------------------------
 # replay (spec -> code)
 # --------------------------------------------------------------------------------------
+REPLAY_STATS = {}
+
+
 def replay(cases_path, profile="dev", elem="elem", cap=0, extra_args=(), per_case_timeout=20, total_timeout=3600, max_failures=150):
     """Run the replay binary over a cases file.  Survives aborts/hangs of the code under test:
     the case that killed the process is recorded as a failure of kind 'abort' / 'hang'.
@@ -201,8 +204,10 @@ def replay(cases_path, profile="dev", elem="elem", cap=0, extra_args=(), per_cas
     t_end = time.time() + total_timeout
     while True:
         cmd = [exe, cases_path, "--elem", elem, "--cap", str(cap), "--from", str(start)] + list(extra_args)
-        p = subprocess.Popen(cmd, stdout=subprocess.PIPE, stderr=subprocess.DEVNULL, text=True)
+        errf = tempfile.TemporaryFile()
+        p = subprocess.Popen(cmd, stdout=subprocess.PIPE, stderr=errf, text=True, env=dict(os.environ, RUST_BACKTRACE="0"))
         last = None
+        armed = None      # case in which an allocation request is being refused on purpose ("A k" marker)
         done = False
         # watchdog: a case that runs longer than per_case_timeout is a hang
         import threading
@@ -222,6 +227,8 @@ def replay(cases_path, profile="dev", elem="elem", cap=0, extra_args=(), per_cas
             if line.startswith("S "):
                 last = int(line[2:])
                 state["t"] = time.time()
+            elif line.startswith("A "):
+                armed = last
             elif line.startswith("F "):
                 d = json.loads(line[2:])
                 d["profile"] = profile
@@ -247,6 +254,20 @@ def replay(cases_path, profile="dev", elem="elem", cap=0, extra_args=(), per_cas
         kind = "hang" if state["killed"] else "abort"
         if len(failures) >= max_failures:
             return ran + last - start + 1, failures
+        if kind == "abort" and armed == last:
+            # memory exhaustion overlay: Rust's answer to a refused infallible allocation is to end the process.
+            # That is the one permitted outcome besides "the call means what it always means".
+            try:
+                errf.seek(0, 2)
+                errf.seek(max(0, errf.tell() - 4096))
+                tail = errf.read().decode("utf-8", "replace")
+            except Exception:
+                tail = ""
+            if "memory allocation of" in tail:
+                REPLAY_STATS["oom_aborts"] = REPLAY_STATS.get("oom_aborts", 0) + 1
+                ran += last - start + 1
+                start = last + 1
+                continue
         failures.append({"case": last, "elem": elem, "cap": cap, "profile": profile,
                          "fails": [{"step": -1, "kind": kind, "detail": {"returncode": p.returncode}}]})
         ran += last - start + 1
